@@ -4,5 +4,8 @@ package checks
 var Registry = map[string]func(tier string){
 	"C01": C01,
 	"C16": C16,
+	"C18": C18,
+	"C12": C12,
+	"C20": C20,
 	"C10": C10,
 }
